@@ -126,6 +126,25 @@ def run(ctx):
         res.make_partial(ranges)
         return res
 
+    class UwsgiWrapper:
+        """uWSGI's wrapper: an object with a working descriptor is sent by
+        sendfile, whole and from offset 0, whatever the Python-level file
+        position is; anything else is read in blocks"""
+        def __init__(self, filelike, blksize=8192):
+            self.filelike, self.blksize = filelike, blksize
+
+        def __iter__(self):
+            try:
+                fd = self.filelike.fileno()
+            except (AttributeError, OSError):
+                return iter(lambda: self.filelike.read(self.blksize), b"")
+            size = os.fstat(fd).st_size
+            return iter([os.pread(fd, size, 0)] if size else [])
+
+        def close(self):
+            if hasattr(self.filelike, "close"):
+                self.filelike.close()
+
     class FileWrapper:
         """what a server installs as wsgi.file_wrapper"""
         def __init__(self, filelike, blksize=8192):
@@ -158,7 +177,16 @@ def run(ctx):
                 env_extra["wsgi.file_wrapper"] = FileWrapper
             if variant == "uwsgi":
                 env_extra["uwsgi.version"] = b"2.0"
-        ans = call(app, environ(path="/r", headers=hdr, extra=env_extra))
+                # with sendfile semantics when the object is served from
+                # its beginning (the framework must keep partial answers
+                # away from such a wrapper); what uWSGI does with an object
+                # positioned elsewhere is not emulated
+                if not extra:
+                    env_extra["wsgi.file_wrapper"] = UwsgiWrapper
+        env = environ(path="/r", headers=hdr, extra=env_extra)
+        if "uwsgi.version" in env_extra:
+            del env["SERVER_SOFTWARE"]      # uWSGI does not set it
+        ans = call(app, env)
         if ans.raised or ans.iter_raised or len(ans.calls) != 1:
             ctx.violation("emission-failed", {
                 "kind": kind, "L": len(data), "ranges": ranges,
@@ -267,6 +295,15 @@ def run(ctx):
                 one("buf", data, [r], declare=spell)
                 one("gen", data, [r], compositions(L, True, rng, 1)[0],
                     declare=spell)
+            # positions with more digits than their neighbour (9-10, 2-10):
+            # numbers, not digit strings
+            if L == maxL:
+                big = bytes((48 + i % 75) for i in range(13))
+                for first, last in ((9, 10), (2, 10), (5, 12), (9, 12),
+                                    (10, 11), (99, 100), (9, None)):
+                    hdr = "bytes=%d-%s" % (first,
+                                           "" if last is None else last)
+                    one("e2e", big, [(first, last)], hdr={"Range": hdr})
             # range lists of length 0 and 2
             one("buf", data, [])
             one("gen", data, [], compositions(L, False, rng, 1)[0])
